@@ -11,7 +11,7 @@ PROP_MODULES = ['TxV.Props.C01']
 AUDIT = 'Audit/C01.lean'
 ANCHORS = ['txtorcon/torcontrolprotocol.py', 'txtorcon/spaghetti.py']
 RULE = ('sessions generated adaptively against the real protocol: 1..10 commands (30% with per-line callback), replies of 0..5 '
-        'mid/data-block parts + final line with 2xx/5xx codes over a text alphabet that imitates status lines, submits interleaved at '
+        'mid/data-block parts + final line with 2xx/5xx codes over a text alphabet that imitates status lines, asynchronous 6xx events (nobody listening) between and before replies in a third of the sessions, submits interleaved at '
         'arbitrary byte positions, and submits made from inside the result callback of a command (queued behind what is waiting); each session is run in three segmentations (as generated, byte-wise, random cuts). '
         'non-trivial = at least 2 commands and a reply with more than one line; distinct = distinct op lists')
 TRUSTED = ["Twisted LineOnlyReceiver framing modelled as a byte automaton (line ends when LF follows CR); MAX_LENGTH not modelled",
@@ -35,6 +35,7 @@ def tagger(case, impl):
     data = any(tl[0] == 'dl' for v in case['tls'].values() for tl in v)
     e5 = any(tl[0] == 'fin' and 500 <= tl[1] < 600 for v in case['tls'].values() for tl in v)
     tags = ['cmds=%d' % min(n_sub, 5), 'cb' if n_cb else 'nocb', 'datablock' if data else 'nodata', 'has5xx' if e5 else 'no5xx', 'reentrant' if re_n else 'sequential',
+            'with-events' if any(tl[0] in ('fin', 'mid', 'ds') and tl[1] >= 600 for v in case['tls'].values() for tl in v) else 'no-events',
             'chunks=%s' % ('1' if all(len(op[1]) == 1 for op in case['ops'] if op[0] == 'bytes') and n_lines else 'n')]
     return tags, (n_sub >= 2 and n_lines > n_fin)
 
@@ -49,7 +50,7 @@ def corpus():
 def gen_cases(rng, tier):
     n = 250 if tier == 'quick' else 8000
     for _ in range(n):
-        case = ctl.normalise_case(ctl.gen_session(rng, n_steps=rng.choice([10, 25, 45]), events=False, listeners=False, loss=False, reenter=True))
+        case = ctl.normalise_case(ctl.gen_session(rng, n_steps=rng.choice([10, 25, 45]), events=rng.random() < 0.3, listeners=False, loss=False, reenter=True))
         yield ctlprop.to_json_case(case)
         yield ctlprop.to_json_case(ctlprop.rechunk(case, 'bytewise', rng))
         yield ctlprop.to_json_case(ctlprop.rechunk(case, 'random', rng))
